@@ -1,11 +1,15 @@
 /-!
 # A fuller MIR interpreter for the renaming-invariance theorem of C12
 
-Statement kinds of `samlang-ast/src/mir.rs` covered: `Binary`, `IfElse` with final assignments,
-`While` with loop variables / `Break` with break collector, `Call` (direct function name or closure
-value), `StructInit`, `IndexedAccess`, `ClosureInit` (= a two-field object `[fn f, context]`),
-plus `println`.  Not covered: casts / `IsPointer` / `Not` / `LateInitDeclaration+Assignment`
-(no-ops or special cases of the above for this theorem), enum-specific run-time representations.
+All 14 statement kinds of `samlang-ast/src/mir.rs` `Statement`: `IsPointer`, `Not`, `Binary`,
+`IndexedAccess`, `Call` (direct function name or closure value), `IfElse` with final assignments,
+`SingleIf`, `Break` with break collector, `While` with loop variables, `Cast`,
+`LateInitDeclaration`, `LateInitAssignment`, `StructInit`, `ClosureInit` (object `[fn f, context]`),
+plus `println` (the builtin call that makes behaviour observable).  Enum run-time representations
+are the values the lowered code builds with these statements: an int tag for data-less variants, a
+heap object `[tag, fields…]` for boxed variants, the payload pointer itself for unboxed variants;
+`Cast` is a run-time no-op and `IsPointer` tells tags from references.  Binary operators: add, sub,
+mul, lt, eq (the others behave alike for this theorem).
 
 Names are numbers: function names `f`, string-global names `g`, variable / temporary names `x`.
 The compiler hands these out in `HashMap` iteration order and through a shared atomic counter,
@@ -58,6 +62,20 @@ inductive Stmt where
   /-- a `while` whose loop variables are already bound (internal) -/
   | loop (vars : List (Nat × Expr × Expr)) (body : Stmt) (bc : Nat)
   | brk (e : Expr)
+  /-- `Not`: boolean negation of an int-encoded bool -/
+  | not (x : Nat) (e : Expr)
+  /-- `IsPointer`: 1 if the operand is a heap reference (boxed enum variant / unboxed payload),
+  0 if it is an int31-style tag -/
+  | isPointer (x : Nat) (e : Expr)
+  /-- `Cast`: run-time no-op, binds the same value under a new name (enum run-time
+  representations are ints for data-less variants and pointers otherwise) -/
+  | cast (x : Nat) (e : Expr)
+  | lateDecl (x : Nat)
+  | lateAssign (x : Nat) (e : Expr)
+  /-- `SingleIf { condition, invert_condition, statements }` -/
+  | singleIf (c : Expr) (invert : Bool) (body : Stmt)
+  /-- `ClosureInit`: object `[fn f, context]` -/
+  | closureInit (x : Nat) (f : Nat) (ctx : Expr)
   deriving Repr
 
 structure Fn where
@@ -113,6 +131,12 @@ def evalArgs (p : Prog) (σ : St) : List Expr → Option (List Val)
       match evalArgs p σ es with
       | none => none
       | some vs => some (v :: vs)
+
+def evalIsPtr (p : Prog) (σ : St) (e : Expr) : Option Int :=
+  match evalE p σ e with
+  | some (.ptr _) => some 1
+  | some _ => some 0
+  | none => none
 
 /-- `IndexedAccess` -/
 def evalIndex (p : Prog) (σ : St) (e : Expr) (i : Nat) : Option Val :=
@@ -229,6 +253,31 @@ def exec (p : Prog) : Nat → Stmt → St → Option (Outcome × St)
     match evalE p σ e with
     | none => none
     | some v => some (.broke v, σ)
+  | _, .not x e, σ =>
+    match evalInt p σ e with
+    | none => none
+    | some n => some (.normal, { σ with env := (x, .int (if n = 0 then 1 else 0)) :: σ.env })
+  | _, .isPointer x e, σ =>
+    match evalIsPtr p σ e with
+    | none => none
+    | some n => some (.normal, { σ with env := (x, .int n) :: σ.env })
+  | _, .cast x e, σ =>
+    match evalE p σ e with
+    | none => none
+    | some v => some (.normal, { σ with env := (x, v) :: σ.env })
+  | _, .lateDecl _, σ => some (.normal, σ)
+  | _, .lateAssign x e, σ =>
+    match evalE p σ e with
+    | none => none
+    | some v => some (.normal, { σ with env := (x, v) :: σ.env })
+  | fuel, .singleIf c invert body, σ =>
+    match evalInt p σ c with
+    | none => none
+    | some n => if (n ≠ 0) != invert then exec p fuel body σ else some (.normal, σ)
+  | _, .closureInit x f ctx, σ =>
+    match evalE p σ ctx with
+    | none => none
+    | some v => some (.normal, { σ with env := (x, .ptr σ.heap.length) :: σ.env, heap := σ.heap ++ [[.fn f, v]] })
 termination_by fuel s => (fuel, sizeOf s)
 decreasing_by
   all_goals simp_wf
@@ -283,6 +332,13 @@ def renS (ρ : Ren) : Stmt → Stmt
   | .while vars body bc => .while (vars.map (renTriple ρ)) (renS ρ body) (ρ.v bc)
   | .loop vars body bc => .loop (vars.map (renTriple ρ)) (renS ρ body) (ρ.v bc)
   | .brk e => .brk (renE ρ e)
+  | .not x e => .not (ρ.v x) (renE ρ e)
+  | .isPointer x e => .isPointer (ρ.v x) (renE ρ e)
+  | .cast x e => .cast (ρ.v x) (renE ρ e)
+  | .lateDecl x => .lateDecl (ρ.v x)
+  | .lateAssign x e => .lateAssign (ρ.v x) (renE ρ e)
+  | .singleIf c invert body => .singleIf (renE ρ c) invert (renS ρ body)
+  | .closureInit x f ctx => .closureInit (ρ.v x) (ρ.f f) (renE ρ ctx)
 
 def renFn (ρ : Ren) (fn : Fn) : Fn :=
   { params := fn.params.map ρ.v, body := renS ρ fn.body, ret := renE ρ fn.ret }
